@@ -21,6 +21,9 @@ const (
 	c11CeaseOpenSent
 	c11CeaseOpenConfirm
 	c11CeaseEstablished
+	c11CeaseThenFinOpenSent // a Cease with the FIN right behind it (the reader sees EOF while the FSM is already tearing down)
+	c11CeaseThenFinOpenConfirm
+	c11CeaseThenFinEstablished
 	c11WriteFailsOpenSent    // the reset is seen as a failed write: answering the remote's OPEN (KEEPALIVE) fails
 	c11WriteFailsEstablished // a keep-alive cannot be written any more
 	c11NumFaults
@@ -74,7 +77,7 @@ func c11WaitForDial(e *penv, idle, retry time.Duration, attemptsBefore int) int 
 }
 
 func Verif_C11_fault_then_recover() {
-	verifNote("active peer, idle-hold and connect-retry times symbolic (32-bit milliseconds); one fault from {dial refused, dial stalled past connect-retry, FIN/RST in OpenSent, FIN in OpenConfirm/Established, Cease received in OpenSent/OpenConfirm/Established, a reset seen as a failed write (of the KEEPALIVE answering the OPEN in OpenSent; of a periodic KEEPALIVE in Established)}, optionally preceded by another fault (sequences of 1..2 faults); then a well-behaved remote; base schedule; time = timer contract (armed durations), not simulated")
+	verifNote("active peer, idle-hold and connect-retry times symbolic (32-bit milliseconds); one fault from {dial refused, dial stalled past connect-retry, FIN/RST in OpenSent, FIN in OpenConfirm/Established, Cease received in OpenSent/OpenConfirm/Established (alone, or with the FIN right behind it), a reset seen as a failed write (of the KEEPALIVE answering the OPEN in OpenSent; of a periodic KEEPALIVE in Established)}, optionally preceded by another fault (sequences of 1..2 faults); then a well-behaved remote; base schedule; time = timer contract (armed durations), not simulated")
 	e, idle, retry := c11Env(false)
 	nf := 1 + verifChoose("faults", 2)
 	e.dial.outcomes = nil
@@ -100,9 +103,9 @@ func Verif_C11_fault_then_recover() {
 		var c *symConn
 		switch k {
 		case c11Refuse, c11Stall:
-		case c11FinOpenSent, c11RstOpenSent, c11CeaseOpenSent, c11WriteFailsOpenSent:
+		case c11FinOpenSent, c11RstOpenSent, c11CeaseOpenSent, c11WriteFailsOpenSent, c11CeaseThenFinOpenSent:
 			c = e.bring(out, stOpenSent)
-		case c11FinOpenConfirm, c11CeaseOpenConfirm:
+		case c11FinOpenConfirm, c11CeaseOpenConfirm, c11CeaseThenFinOpenConfirm:
 			c = e.bring(out, stOpenConfirm)
 		default:
 			c = e.bring(out, stEstablished)
@@ -114,6 +117,13 @@ func Verif_C11_fault_then_recover() {
 			c.remoteClose(2)
 		case c11CeaseOpenSent, c11CeaseOpenConfirm, c11CeaseEstablished:
 			c.send(verifMsgNotification, []byte{NOTIF_CODE_CEASE, verifU8("cease-subcode")})
+		case c11CeaseThenFinOpenSent, c11CeaseThenFinOpenConfirm, c11CeaseThenFinEstablished:
+			c.chunks = append(c.chunks, mkFrame(verifMsgNotification, []byte{NOTIF_CODE_CEASE, 0}))
+			c.endMode = 1
+			verifDelayBound(2) // reader (EOF in hand) against the FSM that is tearing down: all schedules with at most 2 delays
+			c.deliver(len(c.chunks), true)
+			verifQuiesce()
+			verifDelayBound(0)
 		case c11WriteFailsOpenSent:
 			c.failWrites = true
 			c.send(verifMsgOpen, e.openBody())
@@ -260,3 +270,8 @@ func Verif_C02_valid_open_accepted_on_redial_after_inbound_session() {
 
 // C20 on the inbound-ends scenario: a peer added as passive never dials, whatever its inbound connections do
 func Verif_C20_passive_peer_never_dials() { Verif_C11_inbound_ends_and_passive() }
+
+// C09 on the same scenario: an OPEN received in OpenSent is legal progress also after an inbound session of the peer ended
+func Verif_C09_open_in_opensent_progresses_after_inbound_session() {
+	Verif_C11_outbound_establishes_after_inbound_session()
+}
